@@ -224,7 +224,7 @@ def noncopy(t) -> bool:
     if tag == "opq":
         return t[1] in ("qubit", "array") or any(not is_const(a) and noncopy(a) for a in t[2])
     if tag == "struct":
-        return any(not is_const(a) and noncopy(a) for a in t[2])
+        return t[1] == "G2" or any(not is_const(a) and noncopy(a) for a in t[2])
     return False
 
 
